@@ -538,6 +538,10 @@ class Exec:
         kwargs = {}
         for k in n.keywords:
             if k.arg is None:
+                d = self.ev(st, k.value)
+                if isinstance(d, dict) and all(isinstance(x, str) for x in d):
+                    kwargs.update(d)          # **kwargs with a concrete dict
+                    continue
                 raise NotInSubset('**kwargs')
             kwargs[k.arg] = self.ev(st, k.value)
         return self.call(st, f, args, kwargs, n)
@@ -890,6 +894,10 @@ class Exec:
             it = it.m_iter(self, st, s)
         if is_sym(it):
             raise NotInSubset('iteration over a symbolic scalar')
+        if isinstance(it, range) and it.step == 1 and self.loop_id[id(s)] in self.c.get('loops', {}):
+            # a concrete range for which the contract supplies an invariant: cut by the invariant instead of unrolling
+            lo = it.start
+            it = SymIter(len(it), lambda ex, st_, k, lo=lo: lo + k)
         if not isinstance(it, SymIter):
             # concrete iterable: unroll
             states = [st]
@@ -981,7 +989,8 @@ class Exec:
         n_len = it.length
         st.env[idx_name] = 0
         for nm, g in spec['inv'](self, st):
-            self.prove(st, f'loop{k}:entry:{nm}', g, s)
+            if not nm.startswith('~'):
+                self.prove(st, f'loop{k}:entry:{nm}', g, s)
         h = self.havoc(st, [s], spec, k)
         fref = self._frame_ref
         kk = self.fv(idx_name, 'int')
@@ -1012,7 +1021,8 @@ class Exec:
                 o.ctl = None
                 o.env[idx_name] = kk + 1
                 for nm, g in spec['inv'](self, o):
-                    self.prove(o, f'loop{k}:preserve:{nm}', g, s)
+                    if not nm.startswith('~'):
+                        self.prove(o, f'loop{k}:preserve:{nm}', g, s)
             elif o.ctl == 'break':
                 o.ctl = None
                 after.append(o)
@@ -1024,10 +1034,45 @@ class Exec:
             after_else = [ex_state]
         return after_else + after
 
+    def unrolled_while(self, st, s, bound):
+        """bounded unrolling (used only for refutation search, never for proofs): executions that need more than
+        ``bound`` iterations are not explored"""
+        states, after = [st], []
+        for _ in range(bound + 1):
+            nxt = []
+            for q in states:
+                c = self.truth(q, self.ev(q, s.test), s)
+                body, ex_state = self.fork_on(q, c)
+                if ex_state is not None:
+                    after.append(ex_state)
+                if body is not None and _ < bound:
+                    self.in_loop += 1
+                    try:
+                        outs = self.run_block([body], s.body)
+                    finally:
+                        self.in_loop -= 1
+                    for o in outs:
+                        if o.ctl in (None, 'continue'):
+                            o.ctl = None
+                            nxt.append(o)
+                        elif o.ctl == 'break':
+                            o.ctl = None
+                            after.append(o)
+                        else:
+                            after.append(o)
+            states = nxt
+            if not states:
+                break
+        return after
+
     def s_While(self, st, s):
+        ub = self.c.get('unroll', {}).get(self.loop_id[id(s)])
+        if ub is not None:
+            return self.unrolled_while(st, s, ub)
         k, spec = self.loop_spec(s)
         for nm, g in spec['inv'](self, st):
-            self.prove(st, f'loop{k}:entry:{nm}', g, s)
+            if not nm.startswith('~'):
+                self.prove(st, f'loop{k}:entry:{nm}', g, s)
         h = self.havoc(st, s.body, spec, k)
         fref = self._frame_ref
         for nm, g in spec['inv'](self, h):
@@ -1048,7 +1093,8 @@ class Exec:
                     self.check_frame(fref, o, s)
                     o.ctl = None
                     for nm, g in spec['inv'](self, o):
-                        self.prove(o, f'loop{k}:preserve:{nm}', g, s)
+                        if not nm.startswith('~'):
+                            self.prove(o, f'loop{k}:preserve:{nm}', g, s)
                     if var0 is not None:
                         v1 = spec['variant'](self, o)
                         self.prove(o, f'loop{k}:variant', z3.And(to_int(v1) < to_int(var0), to_int(var0) >= 0), s)
@@ -1076,5 +1122,6 @@ class Exec:
             post = self.c.get('post')
             if post:
                 for nm, g in post(self, o):
-                    self.prove(o, f'post:{nm}', g, self.fn)
+                    if not nm.startswith('~'):
+                        self.prove(o, f'post:{nm}', g, self.fn)
         return self.obls
